@@ -241,6 +241,11 @@ def used_functions(terms):
 STRATEGIES = [
     # (label, solver options, share of the time budget)
     ('ematch', {'smt.mbqi': False, 'smt.auto_config': False}, 0.25),   # triggers only: fast unsat or fast give-up
+    # the complete configuration, restarted with different seeds: its run time on these queries is bimodal (0.05 s or
+    # a timeout, depending on the instantiation order), short restarts remove the dependence on luck
+    ('default', {'smt.random_seed': 1, 'random_seed': 1}, 0.15),
+    ('default', {'smt.random_seed': 2, 'random_seed': 2}, 0.15),
+    ('default', {'smt.random_seed': 3, 'random_seed': 3}, 0.15),
     ('default', {}, 1.0),
 ]
 
@@ -257,14 +262,48 @@ def discharge(ex, o, use_alt=True, both=False, timeout_ms=None, extra=()):
         body = list(o.pc) + list(extra) + [z3.Not(o.goal)]
     budget = timeout_ms or Z3_TIMEOUT_MS
     status, model, reason, sol = 'unknown', None, '', None
-    strategies = STRATEGIES if sym.BOUND is None else STRATEGIES[1:]
+    strategies = STRATEGIES if sym.BOUND is None else STRATEGIES[-1:]
+    backend = 'z3-5.1'
+    tried_slices = False
+    full = None            # the solver holding the complete query (for the SMT-LIB dump handed to the other solvers)
+
+    def sliced():
+        """relevance slicing: all ground hypotheses, plus only the quantified ones that share symbols with the goal
+        (transitively, in rounds).  Any subset of the hypotheses is sound for `unsat`."""
+        hyps = list(o.pc) + list(extra)
+        for keep in relevance_slices(hyps, o.goal):
+            s2 = z3.Solver()
+            s2.set('timeout', max(1500, budget // 4))
+            sel = [hyps[i] for i in keep]
+            if PREPARE:
+                q = prep.prepare_query(sel, z3.Not(o.goal))
+            else:
+                q = sel + [z3.Not(o.goal)]
+            s2.add(*ex.axioms(used_functions(sel + [o.goal])))
+            if 'lsum' in used:
+                s2.add(*calls.lsum_axioms())
+            s2.add(*q)
+            if s2.check() == z3.unsat:
+                return (f'z3-5.1 (relevance slice: {sum(1 for i in keep if execu._has_quantifier(hyps[i]))} of '
+                        f'{sum(1 for h in hyps if execu._has_quantifier(h))} quantified hypotheses)')
+        return None
+
     for label, opts, share in strategies:
+        if label == 'default' and share >= 1.0 and not tried_slices and status == 'unknown' and sym.BOUND is None and SLICE:
+            tried_slices = True
+            # between the cheap trigger-only attempt and the complete configuration: slices are much cheaper than the
+            # complete configuration and decide the obligations whose hypotheses drown the relevant ones
+            hit = sliced()
+            if hit is not None:
+                status, reason, backend = 'proved', '', hit
+                break
         sol = z3.Solver()
         sol.set('timeout', int(budget * share))
         for k, v in opts.items():
             sol.set(k, v)
         sol.add(*axs)
         sol.add(*body)
+        full = sol
         r = sol.check()
         if r == z3.unsat:
             status = 'proved'
@@ -276,28 +315,7 @@ def discharge(ex, o, use_alt=True, both=False, timeout_ms=None, extra=()):
                 break
             continue
         reason = sol.reason_unknown()
-    backend = 'z3-5.1'
-    if status == 'unknown' and sym.BOUND is None and SLICE:
-        # relevance slicing: all ground hypotheses, plus only the quantified ones that share symbols with
-        # the goal (transitively, in rounds).  Any subset of the hypotheses is sound for `unsat`.
-        hyps = list(o.pc) + list(extra)
-        for keep in relevance_slices(hyps, o.goal):
-            sol = z3.Solver()
-            sol.set('timeout', max(1500, budget // 4))
-            sel = [hyps[i] for i in keep]
-            if PREPARE:
-                q = prep.prepare_query(sel, z3.Not(o.goal))
-            else:
-                q = sel + [z3.Not(o.goal)]
-            sol.add(*ex.axioms(used_functions(sel + [o.goal])))
-            if 'lsum' in used:
-                sol.add(*calls.lsum_axioms())
-            sol.add(*q)
-            if sol.check() == z3.unsat:
-                status, reason = 'proved', ''
-                backend = f'z3-5.1 (relevance slice: {sum(1 for i in keep if execu._has_quantifier(hyps[i]))} of ' \
-                          f'{sum(1 for h in hyps if execu._has_quantifier(h))} quantified hypotheses)'
-                break
+    sol = full
     if status == 'unknown' or both:
         if use_alt:
             smt2 = sol.to_smt2()
